@@ -139,7 +139,13 @@ class Env:
             roles = [w[5:] for w in s.replace('(', ' ').replace(')', ' ').split() if w.startswith('role:')]
             return R(*sorted(roles))
         rules = [[n, absb(c)] for n, c in list(self.e.rules.items()) if n in NAMES]
-        fr = [[n, absb(rd.check)] for n, rd in list(self.e.file_rules.items()) if n in NAMES]
+        # the record of file-provided rules is internal: when a refactoring moved it away the
+        # projection goes without it (it only feeds the MODEL-DRIFT note and the window label)
+        fr = []
+        try:
+            fr = [[n, absb(getattr(rd, 'check', rd))] for n, rd in list(getattr(self.e, 'file_rules', {}).items()) if n in NAMES]
+        except Exception:
+            fr = []
         return rules, fr
 
     def extra(self):
